@@ -1,7 +1,7 @@
 """C03 -- C standard mode writes/reads the same bytes as the specification and Python."""
 from .. import cdrive, common, gen, tlc
 from ..report import Report
-from . import cwire, designlevel, pywire
+from . import ccopycases, cwire, designlevel, pywire
 
 
 def sigs(case, evt, clause):
@@ -31,6 +31,11 @@ def main(tier, replay=None):
     designlevel.codec_design(rep, "U_small depth1 enc+dec", depth=1, caps=(1, 5), leafset="small",
                              evo=0, modes=("enc", "dec"),
                              invariants=("InBounds", "EncRefines", "DecRefines", "ChunkShape"), properties=())
+    r = designlevel.run_cfg("MC_CCopy", open(common.SPEC + "/MC_CCopy.cfg").read(), coverage=True)
+    tlc.machinery_check(r, "MC_CCopy")
+    rep.add_tlc(r, "design:CCopy (BpCopyBufferBits fast paths) refines the bit copy, n<=80 x di x si")
+    if not r.ok:
+        raise common.MachineryError("MC_CCopy violated: %s" % r.violated)
     if tier == "quick":
         configs = [(("-O0",), False), (("-O2",), True)]
         n, nv = 100, 5
@@ -41,6 +46,16 @@ def main(tier, replay=None):
     worker = cdrive.Worker()
     try:
         with common.Scratch("c03") as scratch:
+            for cflags in ((("-O2",),) if tier == "quick" else (("-O0",), ("-O1",), ("-O2",), ("-O3",))):
+                traces = ccopycases.copy_traces(scratch, worker, False, 40 if tier == "quick" else 80, seed, cflags=cflags)
+                verdicts, r = tlc.validate_traces("WireTrace", "WireTrace.cfg", traces)
+                rep.add_tlc(r, "trace-validation:BpCopyBufferBits " + "".join(cflags))
+                rep.cov["traces_validated_against_impl"] += len(traces)
+                for tr, (ok, why) in zip(traces, verdicts):
+                    rep.count("evaluations", len(tr["events"]))
+                    if not ok:
+                        idx = int(why.split(":")[0]) - 1
+                        rep.decide({"event": tr["events"][idx], "cflags": cflags}, "BpCopyBufferBits: " + why, [])
             for ci, (cflags, single_tu) in enumerate(configs):
                 builder = cdrive.CBuilder(scratch, cflags=cflags)
                 cases = make_cases(seed + 1000 * ci, n, nv, "c03-%s-%s" % ("".join(cflags), "tu1" if single_tu else "sep"),
